@@ -258,6 +258,10 @@ func smokeRLWE(c *engine.Chooser, area, tag string, p rlwe.Parameters) {
 	checkEncDec(c, area, tag, p)
 }
 
+// sigTAboveHalfQ0 is the one signature of the defect "bgv.NewParameters only refuses t > Q[0], but a plaintext at
+// level 0 (modulus q0) needs t < q0/2: the decoder computes round(t·x/q0), which wraps for residues above q0/2".
+const sigTAboveHalfQ0 = "C19/accept/bgv-accepts-t-above-q0/2"
+
 // smokeBGV: encode -> encrypt -> decrypt -> decode is the identity on Z_t^n.
 func smokeBGV(c *engine.Chooser, area, tag string, p bgv.Parameters) {
 	smokeRLWE(c, area, tag, p.Parameters)
@@ -265,6 +269,12 @@ func smokeBGV(c *engine.Chooser, area, tag string, p bgv.Parameters) {
 		return
 	}
 	t := p.PlaintextModulus()
+	sigFor := func(a, what string, moduli []uint64) string {
+		if t > p.Q()[0]/2 {
+			return sigTAboveHalfQ0
+		}
+		return sigFor(a, what, moduli)
+	}
 	// structure the statement names for the plaintext modulus: coprime to Q, compatible with the ring
 	for _, q := range p.Q() {
 		if q%t == 0 || (t > 1 && t%q == 0) {
@@ -295,6 +305,27 @@ func smokeBGV(c *engine.Chooser, area, tag string, p bgv.Parameters) {
 		for j := range vals {
 			if got[j] != vals[j] {
 				c.Fail(sigFor(area, "bgv-encode-decode", append(p.QP(), t)), "%s: t=%d q0=%d level %d slot %d: Decode(Encode(v)) = %d, v = %d (no encryption involved)", tag, t, p.Q()[0], lvl, j, got[j], vals[j])
+				return
+			}
+		}
+		// coefficient (non-batched) encoding puts the boundary residues t-1, t/2, t/2+1 directly into the polynomial
+		cpt := bgv.NewPlaintext(p, lvl)
+		cpt.IsBatched = false
+		coef := make([]uint64, n)
+		for j := range coef {
+			coef[j] = []uint64{t - 1, 1, t / 2, t/2 + 1, 0, t - 2}[j%6]
+		}
+		if err := ecd.Encode(coef, cpt); err != nil {
+			c.Fail("C19/"+area+"/bgv-encode-error", "%s: level %d (coefficients): %v", tag, lvl, err)
+			return
+		}
+		if err := ecd.Decode(cpt, got); err != nil {
+			c.Fail("C19/"+area+"/bgv-decode-error", "%s: level %d (coefficients): %v", tag, lvl, err)
+			return
+		}
+		for j := range coef {
+			if got[j] != coef[j] {
+				c.Fail(sigFor(area, "bgv-encode-decode", append(p.QP(), t)), "%s: t=%d q0=%d level %d coefficient %d: Decode(Encode(v)) = %d, v = %d (no encryption involved)", tag, t, p.Q()[0], lvl, j, got[j], coef[j])
 				return
 			}
 		}
